@@ -615,11 +615,40 @@ def pers_group(pers):
     return {'none': 'none', 'simple': 'simple'}.get(pers['kind'], 'configured')
 
 
-def judge_step(clause, case, stats, pers, step_info, decision, req, mdl, out, before, after, accesses, label):
+def diff_class(pers, wrap, route):
+    """How the request's route path relates to the configured one (computed from the structures, independent of how
+    the generator derived it): absent | empty | present (nothing configured) | equal | length | port / link /
+    link-kind (joined with '+' when several fields differ)."""
+    if not wrap:
+        return 'absent'
+    if not route:
+        return 'empty'
+    if pers.get('path') is None:
+        return 'present'
+    conf = pers['path']
+    if same_path(route, conf):
+        return 'equal'
+    if len(route) != len(conf):
+        return 'length'
+    fields = set()
+    for (pa, la), (pb, lb) in zip(route, conf):
+        if pa != pb:
+            fields.add('port')
+        if type(la) is not type(lb):
+            fields.add('link-kind')
+        elif la != lb:
+            fields.add('link')
+    return '+'.join(sorted(fields))
+
+
+def judge_step(clause, case, stats, pers, step_info, decision, req, mdl, out, before, after, accesses, wrap, route):
     """Shared by filter / client / cli: apply the decision table to one request's outcome.
     -> True if the model is still in step with the device."""
+    label = diff_class(pers, wrap, route)
+
     def fail(sig, observed, expected):
-        stats.fail(clause, sig, case, observed=dict(observed, step=step_info, personality=pers), expected=expected)
+        stats.fail(clause, sig, case, observed=dict(observed, step=step_info, personality=pers, route_vs_configured=label),
+                   expected=expected)
 
     if decision == 'accept':
         refused = out['kind'] != 'reply' or out['enip_status'] not in (0, None)
@@ -714,7 +743,7 @@ def pred_filter(case, stats):
             accesses = take_accesses()
             after = dev.snapshot()
             info = {'index': i, 'rk': label, 'svc': step['svc'], 'wrap': wrap, 'route': route}
-            if not judge_step('filter', case, stats, pers, info, decision, req, mdl, out, before, after, accesses, label):
+            if not judge_step('filter', case, stats, pers, info, decision, req, mdl, out, before, after, accesses, wrap, route):
                 break
         stats.case(case, nontrivial=nontrivial, classes=sorted(classes))
     finally:
@@ -924,7 +953,7 @@ def pred_client(case, stats):
         try:
             cap.unconnected_send(request=msg, route_path=arg, send_path=send_path, sender_context=b'C15')
         except Exception as exc:
-            stats.fail('client', 'client:unconnected_send-raises-%s:%s' % (type(exc).__name__, label), case,
+            stats.fail('client', 'client:unconnected_send-raises-%s' % type(exc).__name__, case,
                        observed={'route_path': arg, 'send_path': send_path, 'raised': str(exc)[:200]},
                        expected='a frame carrying route path %r' % (eff,))
             return
@@ -943,13 +972,13 @@ def pred_client(case, stats):
             else:
                 seen = {'wrapper': False, 'message': item.hex()}
         except (rc.RefDecodeError, IndexError, KeyError) as exc:
-            stats.fail('client', 'client:frame-undecodable:%s' % label, case,
+            stats.fail('client', 'client:frame-undecodable', case,
                        observed={'frame': frame.hex(), 'error': str(exc)}, expected='a SendRRData frame')
             return
         want_seen = ({'wrapper': True, 'route_path': segs_of(eff), 'send_path': eff_send, 'message': msg.hex()}
                      if wrapper else {'wrapper': False, 'message': msg.hex()})
         if seen != want_seen:
-            stats.fail('client', 'client:frame-carries-other-route-path:%s' % label, case,
+            stats.fail('client', 'client:frame-carries-other-route-path', case,
                        observed=dict(seen, route_path_argument=arg), expected=want_seen)
             return
         # 2. served by the configured personality
@@ -960,7 +989,7 @@ def pred_client(case, stats):
         accesses = take_accesses()
         after = dev.snapshot()
         info = {'client_route_path': arg, 'send_path': send_path, 'on_the_wire': eff if wrapper else 'no wrapper'}
-        judge_step('client', case, stats, pers, info, decision, req, mdl, out, before, after, accesses, label)
+        judge_step('client', case, stats, pers, info, decision, req, mdl, out, before, after, accesses, wrapper, eff)
     finally:
         dev.close()
 
@@ -1016,35 +1045,51 @@ def _cli_child(case):
                    expected='the simulator starts with the %s personality' % pers['kind'])
         return stats
     try:
-        mdl = M.Model(specs)
-        nontrivial = False
-        for i, step in enumerate(steps):
-            wrap, route, req = step['wrap'], step['route'], step['req']
-            decision = decide(pers, wrap, route)
-            label = step['rk']
-            classes.update(('cli:route:' + label, 'cli:svc:' + step['svc'], 'cli:%s:%s' % (decision, pers['kind'])))
-            if decision == 'refuse' and is_write_req(req):
-                nontrivial = True
-            msg = build_message(req, mdl)
-            ts = sim.TcpSession(srv)
-            try:
-                before = srv.snapshot()
-                take_accesses()
-                res = ts.send(msg, wrap=wrap, route_path=segs_of(route) if route else None)
-                accesses = take_accesses()
-                after = srv.snapshot()
-            finally:
-                ts.close()
-            if res['kind'] == 'timeout':
-                raise common.HarnessError('no reply from the TCP simulator within its timeout (inconclusive)')
-            out = {'kind': res['kind'], 'enip_status': res['enip_status'], 'reply': res['reply']}
-            info = {'index': i, 'rk': label, 'svc': step['svc'], 'wrap': wrap, 'route': route, 'argv': argv}
-            if not judge_step('cli', case, stats, pers, info, decision, req, mdl, out, before, after, accesses, label):
-                break
+        nontrivial = _cli_steps(srv, case, stats, classes)
         stats.case(case, nontrivial=nontrivial, classes=sorted(classes))
+        # reduce each failure to the single request that showed it (fresh tag values, same server); the smaller
+        # case replaces the larger one under the same signature and is directly replayable
+        if stats.fails and len(steps) > 1:
+            idxs = sorted({f.observed['step']['index'] for f in stats.fails.values()
+                           if isinstance(f.observed, dict) and isinstance(f.observed.get('step'), dict)})
+            for i in idxs:
+                for sp in specs:
+                    dflt = sim.tag_default(sp['type'])
+                    srv.set_values(sp['name'], [dflt] * sp['length'])
+                _cli_steps(srv, dict(case, steps=[steps[i]]), stats, set())
     finally:
         srv.stop()
     return stats
+
+
+def _cli_steps(srv, case, stats, classes):
+    specs, argv, pers, steps = case['specs'], case['argv'], case['pers'], case['steps']
+    mdl = M.Model(specs)
+    nontrivial = False
+    for i, step in enumerate(steps):
+        wrap, route, req = step['wrap'], step['route'], step['req']
+        decision = decide(pers, wrap, route)
+        label = step['rk']
+        classes.update(('cli:route:' + label, 'cli:svc:' + step['svc'], 'cli:%s:%s' % (decision, pers['kind'])))
+        if decision == 'refuse' and is_write_req(req):
+            nontrivial = True
+        msg = build_message(req, mdl)
+        ts = sim.TcpSession(srv, timeout=20.0)
+        try:
+            before = srv.snapshot()
+            take_accesses()
+            res = ts.send(msg, wrap=wrap, route_path=segs_of(route) if route else None)
+            accesses = take_accesses()
+            after = srv.snapshot()
+        finally:
+            ts.close()
+        if res['kind'] == 'timeout':
+            raise common.HarnessError('no reply from the TCP simulator within its timeout (inconclusive)')
+        out = {'kind': res['kind'], 'enip_status': res['enip_status'], 'reply': res['reply']}
+        info = {'index': i, 'rk': label, 'svc': step['svc'], 'wrap': wrap, 'route': route, 'argv': argv}
+        if not judge_step('cli', case, stats, pers, info, decision, req, mdl, out, before, after, accesses, wrap, route):
+            break
+    return nontrivial
 
 
 def pred_cli(case, stats):
@@ -1114,8 +1159,9 @@ STRATEGIES = {
     'filter': lambda skey: filter_case_st(skey),
     'text': lambda skey: text_case_st(),
     'client': lambda skey: client_case_st(),
-    'cli': lambda skey: cli_case_st(skey),
 }
+# (cli failures are not re-run under Hypothesis: every evaluation starts a TCP simulator in a forked process; the
+#  predicate itself reduces a failing case to the single failing request)
 
 GRID = [[pk, rk, svc] for pk in PERSONALITIES for rk in ROUTE_KINDS for svc in SERVICES]
 
